@@ -26,6 +26,12 @@ def needs_to_be_resolved(parent_obj, attr_name):
         function always returns False.
 
     """
+    from textx.scoping.rrel import ReferenceProxy
+
+    if isinstance(parent_obj, ReferenceProxy):
+        # reference resolved with '+p:': the pending references are
+        # recorded for the object the proxy stands for
+        parent_obj = parent_obj._tx_obj
     if hasattr(get_model(parent_obj), "_tx_reference_resolver"):
         return get_model(parent_obj)._tx_reference_resolver.has_unresolved_crossrefs(
             parent_obj, attr_name
